@@ -305,6 +305,13 @@ func usesBoundaryDirective(schema *ast.Schema) bool {
 			return true
 		}
 	}
+	if schema.Query != nil {
+		for _, f := range schema.Query.Fields {
+			if hasBoundaryDirective(f) {
+				return true
+			}
+		}
+	}
 	return false
 }
 
